@@ -5,7 +5,7 @@ from typing import Any, Dict
 
 from .. import gen, hta
 from ..core import Prop
-from .c04 import breakdown_cfg
+from .c04 import maybe_fractional, breakdown_cfg
 from .common import file_entries, case_from_cfg, draw_prefix, frame_rows, write_and_load
 
 
@@ -30,6 +30,7 @@ class C05(Prop):
             cfg.max_children = 4
             case = case_from_cfg(rng, cfg)
             if all(any(e.get("pid") == 0 and e.get("ph") == "X" for e in r["events"]) for r in case["ranks"]):
+                maybe_fractional(rng, case, k)
                 case["numK"] = rng.choice([1, 1, 2, 3, 10])
                 case["ratio"] = rng.choice([0.1, 0.5, 0.8, 1.0])
                 case["incMem"] = rng.random() < 0.5
@@ -49,7 +50,8 @@ class C05(Prop):
         with hta.CaseDir("c05") as d:
             ta = write_and_load(case, d)
             ranks = sorted(ta.t.traces)
-            rows = {r: frame_rows(ta, r) for r in ranks}
+            u = int(case.get("u", 1))
+            rows = {r: frame_rows(ta, r, u=u) for r in ranks}
             if any(not any(x["stream"] != -1 for x in rows[r]) for r in ranks):
                 return {"skip": True}
             obs = {"prop": "C05", "err": "", "incMem": bool(case["incMem"]), "numK": case["numK"],
@@ -58,10 +60,10 @@ class C05(Prop):
                 tdf, kdf = ta.get_gpu_kernel_breakdown(visualize=False, duration_ratio=case["ratio"], num_kernels=case["numK"],
                                                        include_memory_kernels=case["incMem"])
                 for t in tdf[["kernel_type", "sum", "percentage"]].itertuples(index=False):
-                    obs["types"].append({"name": str(t[0]), "sum": hta.ival(t[1]), "pct": hta.scaled(t[2], 10)})
+                    obs["types"].append({"name": str(t[0]), "sum": hta.ival(t[1] * u), "pct": hta.scaled(t[2], 10)})
                 for t in kdf[["name", "sum (us)", "max (us)", "min (us)", "mean (us)", "kernel_type", "rank"]].itertuples(index=False):
-                    obs["kernels"].append({"name": str(t[0]), "sum": hta.ival(t[1]), "max": hta.scaled(t[2], 1), "min": hta.scaled(t[3], 1),
-                                           "mean1000": hta.scaled(t[4], 1000), "type": str(t[5]), "rank": hta.ival(t[6])})
+                    obs["kernels"].append({"name": str(t[0]), "sum": hta.ival(t[1] * u), "max": hta.scaled(t[2], u), "min": hta.scaled(t[3], u),
+                                           "mean1000": hta.scaled(t[4], 1000 * u), "type": str(t[5]), "rank": hta.ival(t[6])})
             except Exception as ex:
                 obs["err"] = hta.exc_str(ex)
             return obs
